@@ -14,7 +14,7 @@ ORACLE (written from tp_folder/configs/groups.cfg + sets.cfg and the property, n
 
 Obligations:
   update_runs_exact_path          executed (vm, setup test) set == tests on path(from,to) of every selected vm, each on a
-                                  configured worker, never twice on the same worker
+                                  configured worker and (all tests PASS) exactly once over all workers
   update_cleans_only_descendants  removed (worker, vm, state) set == every worker x selected vm x states in the remove_set
                                   graph strictly derived from to_state (nothing on/before the path, nothing of other vms)
   unknown_state_rejected          from_state/to_state not in the (remove_set) graph -> an exception, nothing run/removed
@@ -316,8 +316,8 @@ def check_update(case, failures, stats):
         per_worker = [(w, vms, test_label(name)) for w, vms, name in executed]
         if any(w not in workers for w, _, _ in per_worker):
             fail("update_runs_exact_path", "test_on_unknown_worker", sorted(per_worker), workers)
-        elif len(set(per_worker)) != len(per_worker):
-            fail("update_runs_exact_path", "test_rerun_on_same_worker", sorted(per_worker), "each test once per worker")
+        elif len(got_run) != len(per_worker):     # workers share results of bridged nodes: a PASSed test is not repeated
+            fail("update_runs_exact_path", "path_test_executed_more_than_once", sorted(per_worker), "each path test exactly once")
     if got_unset != exp_unset:
         extra, missing = got_unset - exp_unset, exp_unset - got_unset
         if missing:
@@ -346,7 +346,6 @@ def update_cases(tier, rnd):
         return {"vms": sorted(states), "states": {vm: list(pair) for vm, pair in states.items()}, "remove_set": remove_set, "nets": nets}
 
     fixed = [case({"vm1": ("customize", "connect"), "vm2": ("install", "customize")}, None, 2)]     # also warms the parse cache
-    fixed += [case({"vm1": pair}) for pair in p1 if pair != ("install", "customize")]                                              # every chain pair of vm1
     fixed += [
         case({"vm1": (None, None)}),                                                # documented defaults install -> customize
         case({"vm1": ("on_customize", "on_customize")}, "minimal"),
@@ -360,6 +359,8 @@ def update_cases(tier, rnd):
         case({"vm1": ("windows_virtuser", "connect")}, None, 2),
         case({"vm1": ("customize", "connect"), "vm2": ("linux_virtuser", "customize")}, None, 2),
     ]
+    parity = shift % 2                                    # every chain pair once, alternately for vm1 and vm2 (seed flips which)
+    fixed += [case({"vm1": p1[i]} if i % 2 == parity else {"vm2": p2[i]}) for i in range(len(p1))]
     full = []
     remove_sets = [None, "minimal", "leaves..tutorial_gui", "tutorial1"] + (["normal"] if tier != "quick" else [])
     for nets, remove_set in [(n, r) for n in (1, 2) for r in remove_sets] + ([(3, None)] if tier != "quick" else []):
